@@ -106,7 +106,7 @@ def run_part(seed, budget, exit_model="fixed"):
     from apischema.recursion import is_recursive, recursion_cache, DeserializationRecursiveChecker, SerializationRecursiveChecker
     r = random.Random(seed * 7919 + 5)
     failures, hist, distinct, n = [], collections.Counter(), set(), 0
-    cases, reqs = [], []
+    cases, reqs, creqs, creal = [], [], [], []
     for gi in range(60 * budget):
         names, src, edges = gen_graph(r, f"{seed}_{gi}", CORPUS[gi] if gi < len(CORPUS) else None)
         mod = build_module(src, f"recg{seed}_{gi}"); ns = vars(mod)
@@ -139,6 +139,12 @@ def run_part(seed, budget, exit_model="fixed"):
         apischema.cache.reset()
         order = classes[:]
         if gi >= len(CORPUS): r.shuffle(order)
+        real_compiled = []
+        for c in order:
+            try: deserialize(c, {}); real_compiled.append(True)
+            except RecursionError: real_compiled.append(False)
+            except BaseException: real_compiled.append(True)
+        apischema.cache.reset()
         for c in order:
             for label, fn in (("deserialize", lambda: deserialize(c, {})), ("serialize", lambda: serialize(c, c())), ("schema", lambda: deserialization_schema(c))):
                 try: fn()
@@ -151,6 +157,7 @@ def run_part(seed, budget, exit_model="fixed"):
         hist["rec-graph-history:%d" % len(starts)] += 1
         cases.append((case, memo, why, ids, starts))
         reqs.append({"op": "rec", "id": gi, "graph": graph, "starts": [ids[s] for s in starts], "fuel": 20000})
+        creqs.append({"op": "rec", "id": gi, "graph": graph, "starts": [ids[c] for c in order], "fuel": 20000, "compile": True}); creal.append(real_compiled)
     outs = model(reqs)
     k_bad = 0
     for (case, memo, why, ids, starts), out in zip(cases, outs):
@@ -163,6 +170,16 @@ def run_part(seed, budget, exit_model="fixed"):
             case = dict(case, model=sorted(want.items()), real=sorted(memo.items()))
         if why or not k_ok:
             failures.append({"kind": "P" if why else "K", "k_ok": k_ok, "mode": "rec-graph", "case": case, "why": why or ["memo-differs-from-model"]})
+    # the consumer of the answers: the method of each class, compiled cold in the generated order, returns whenever the model's compilation stays within its bound
+    c_bad = 0
+    for (case, memo, why, ids, starts), out, real in zip(cases, model(creqs), creal):
+        want = out.get("compiled_" + exit_model)
+        # (the model gives every non-recursive type a fresh visitor; the real visitor compiles the first non-recursive type of a scope in place and so keeps more
+        #  placeholders: the model may overflow where the code returns - observed on the tree before row 96 in 8 of 120 graphs -, never the other way round)
+        if "error" in out or any(m and not r_ for m, r_ in zip(want or [], real)) or len(want or []) != len(real):
+            c_bad += 1
+            failures.append({"kind": "K", "k_ok": False, "mode": "rec-graph-compile", "case": dict(case, model_compiled=want, real_compiled=real), "why": ["compilation-overflows-where-the-model-returns"]})
+    hist["rec-graph-compile-K-compared"] = len(cases); hist["rec-graph-compile-K-disagreements"] = c_bad
     hist["rec-graph-K-compared"] = len(cases); hist["rec-graph-K-disagreements"] = k_bad
     # small-scope enumeration of the model (quick: 3 nodes, up to 3 children; thorough: 4 nodes, up to 2 children); a graph whose model memo is not exact is replayed on the real code
     scope = (4, 2, [[0], [2, 0]]) if budget >= 4 else (3, 3, [[0], [1, 0]])
